@@ -255,6 +255,29 @@ func c11Elig(feature string, th *int32, p *c11P) string {
 	return ""
 }
 
+// c11CertainVictim: does p certainly belong to the documented victim set of the feature? (Narrower than c11Elig, which
+// is the statement's permissive disjunction used to judge a victim: here every documented condition of the feature's
+// own rule must hold.) Best-effort features: best-effort QoS and not opted out. Threshold features: active, not opted
+// out, a determined priority not above the threshold, eviction enabled, a usage metric present.
+func c11CertainVictim(feature string, th *int32, p *c11P) bool {
+	if c11Elig(feature, th, p) != "" {
+		return false
+	}
+	if th == nil {
+		return p.QoS == "BE"
+	}
+	if p.Inactive || p.Usage < 0 || !p.Enabled {
+		return false
+	}
+	switch {
+	case p.Prio != nil && *p.Prio != 0:
+		return *p.Prio <= *th
+	case p.QoS == "LS" || p.QoS == "LSR" || p.QoS == "LSE" || p.QoS == "SYSTEM":
+		return 9500 <= *th
+	}
+	return false
+}
+
 func c11ParseInt(s *string, bits int) (int64, bool) {
 	if s == nil {
 		return 0, false
@@ -449,6 +472,10 @@ func c11MJudge(c *c11MCase, o *c11MObs, count c11Counter) []c11Finding {
 		Elig: func(task, pod int) string {
 			f := c11FeatureOfReason(o.tasks[task].Name)
 			return c11Elig(f, c11FeatureTh(f, &c.Cfg), &c.Pods[pod])
+		},
+		Certain: func(task, pod int) bool {
+			f := c11FeatureOfReason(o.tasks[task].Name)
+			return c11CertainVictim(f, c11FeatureTh(f, &c.Cfg), &c.Pods[pod])
 		},
 		MayPrecede: func(task, a, b int) (bool, string) {
 			f := c11FeatureOfReason(o.tasks[task].Name)
